@@ -24,14 +24,45 @@ const TOTAL_BASE: usize = 64 << 10;
 const TOTAL_PER_BYTE: usize = 4096;
 /// allocation beyond this many live bytes is refused (the node then aborts)
 const HARD_CAP: usize = 3 << 30;
-const DECODE_FACTOR: u32 = 30;
-const FOLLOWUP_FACTOR: u32 = 200;
+/// One run index in 4096 is a scaling probe (spread over the whole range, hence over all workers).
+const SCALING_EVERY: u64 = 4096;
+const DECODE_FACTOR: u32 = 10;
+const FOLLOWUP_FACTOR: u32 = 25;
 
 /// Path of the harness binary built with coset's `std` feature (COSIM_STD_EXE overrides it, for
 /// sweeps that run from a private copy of the binaries).
 fn std_exe() -> &'static str {
     static P: std::sync::OnceLock<String> = std::sync::OnceLock::new();
     P.get_or_init(|| std::env::var("COSIM_STD_EXE").unwrap_or_else(|_| "/verif/target/std/release/cosim".to_string()))
+}
+
+/// CPU time consumed by the calling thread (CLOCK_THREAD_CPUTIME_ID).  Unlike wall-clock time it
+/// does not grow while the thread is descheduled, so a loaded machine cannot fake a slow
+/// operation.
+#[derive(Clone, Copy)]
+struct CpuInstant(std::time::Duration);
+
+impl CpuInstant {
+    fn now() -> CpuInstant {
+        #[repr(C)]
+        struct Timespec {
+            tv_sec: i64,
+            tv_nsec: i64,
+        }
+        extern "C" {
+            fn clock_gettime(clk: i32, tp: *mut Timespec) -> i32;
+        }
+        let mut ts = Timespec { tv_sec: 0, tv_nsec: 0 };
+        // 3 = CLOCK_THREAD_CPUTIME_ID on Linux
+        let rc = unsafe { clock_gettime(3, &mut ts) };
+        if rc != 0 {
+            return CpuInstant(std::time::Duration::ZERO);
+        }
+        CpuInstant(std::time::Duration::new(ts.tv_sec as u64, ts.tv_nsec as u32))
+    }
+    fn elapsed(&self) -> std::time::Duration {
+        CpuInstant::now().0.saturating_sub(self.0)
+    }
 }
 
 fn size_cap(tier: Tier) -> usize {
@@ -86,8 +117,10 @@ fn op<T>(st: &mut RunStats, what: &str, ep: &str, handed: usize, f: impl FnOnce(
 
 /// Time envelope.  Absolute: 250 ms + 10 us per byte handed in.  Relative: 5 ms + FACTOR x the
 /// reference cost of the same bytes, where the reference is the time coset's own `Value` decoder
-/// needs for them plus 0.2 us per byte (a typed decoder also parses what `Value` merely copies,
-/// e.g. protected-header byte strings).  A breach is re-measured three times in this process and
+/// needs for them plus 0.02 us per byte (a typed decoder also parses what `Value` merely copies,
+/// e.g. protected-header byte strings, which is why the reference also parses every embedded
+/// byte string that is itself CBOR).  Measured legitimate ratios on 32-80 kB worst shapes:
+/// decode <= 1.7, follow-ups <= 5.4; the factors are 10 and 25.  All times are thread CPU time.  A breach is re-measured three times in this process and
 /// only the minimum counts; the supervisor then re-executes the case alone in a fresh process and
 /// silently drops a timing report that does not reproduce, so scheduling noise cannot raise an
 /// alarm.
@@ -102,10 +135,13 @@ fn slow_check(
     again: impl FnMut(),
 ) -> Option<Violation> {
     let abs = std::time::Duration::from_micros(250_000 + 10 * handed as u64);
-    let refc = reference + std::time::Duration::from_nanos(200 * handed as u64);
+    let refc = reference + std::time::Duration::from_nanos(20 * handed as u64);
     let rel = std::time::Duration::from_millis(5) + refc * factor;
     let limit = abs.min(rel);
     st.max("max:op_micros", first.as_micros() as u64);
+    if std::env::var_os("COSIM_TIMING").is_some() && first.as_micros() >= 500 {
+        println!("TIMING {} {} handed={} first_us={} ref_us={} ratio={:.1}", what, ep, handed, first.as_micros(), refc.as_micros(), first.as_nanos() as f64 / refc.as_nanos().max(1) as f64);
+    }
     if first <= limit {
         return None;
     }
@@ -113,7 +149,7 @@ fn slow_check(
     let mut again = again;
     let mut best = first;
     for _ in 0..3 {
-        let t = std::time::Instant::now();
+        let t = CpuInstant::now();
         again();
         let e = t.elapsed();
         if e < best {
@@ -136,6 +172,87 @@ fn slow_check(
             refc.as_micros()
         ),
     ))
+}
+
+/// Scaling probe: the same shape at two sizes (about 1 : 4).  For every endpoint, the decode time
+/// of the large input (best of 3) must not exceed 10 x the decode time of the small one (best of
+/// 3) plus 3 ms: linear cost gives ~4 x (up to ~7 x with cache effects and n log n sets), quadratic
+/// cost ~16 x.  Times below 3 ms are not judged.
+fn scaling_check(st: &mut RunStats, small: &[u8], large: &[u8], only: Option<&str>) -> Option<Violation> {
+    let best = |ep: &Endpoint, b: &[u8]| -> std::time::Duration {
+        let mut best = std::time::Duration::from_secs(3600);
+        for _ in 0..3 {
+            let t = CpuInstant::now();
+            let _ = guarded(|| (ep.decode)(b));
+            best = best.min(t.elapsed());
+        }
+        best
+    };
+    for ep in endpoints() {
+        if let Some(o) = only {
+            if o != ep.name {
+                continue;
+            }
+        }
+        // one measurement first: most endpoints reject the shape at once
+        let t0 = CpuInstant::now();
+        let _ = guarded(|| (ep.decode)(large));
+        if t0.elapsed().as_micros() < 3000 {
+            continue;
+        }
+        let tl = best(ep, large);
+        st.inc("probe:scaling-pairs-measured");
+        if tl.as_micros() < 3000 {
+            continue;
+        }
+        let ts = best(ep, small);
+        let limit = ts * 10 + std::time::Duration::from_millis(3);
+        if tl > limit {
+            // once more, to be sure
+            let tl2 = best(ep, large).min(tl);
+            let ts2 = best(ep, small).max(ts);
+            if tl2 > ts2 * 10 + std::time::Duration::from_millis(3) {
+                return Some(Violation::new(
+                    "C01.slow",
+                    format!(
+                        "decode at {} does not scale linearly: {} bytes take {} us, {} bytes take {} us ({:.1} x for {:.1} x the input)",
+                        ep.name,
+                        small.len(),
+                        ts2.as_micros(),
+                        large.len(),
+                        tl2.as_micros(),
+                        tl2.as_nanos() as f64 / ts2.as_nanos().max(1) as f64,
+                        large.len() as f64 / small.len().max(1) as f64
+                    ),
+                ));
+            }
+        }
+    }
+    None
+}
+
+/// Parse as `Value`; then parse every embedded byte string that is itself one CBOR item, to 24
+/// levels of bstr nesting.
+fn deep_parse(bytes: &[u8], level: usize) {
+    use coset::cbor::value::Value;
+    fn walk(v: &Value, level: usize, depth: usize) {
+        if depth > 300 {
+            return;
+        }
+        match v {
+            Value::Bytes(b) if level < 24 && !b.is_empty() => deep_parse(b, level + 1),
+            Value::Array(a) => a.iter().for_each(|x| walk(x, level, depth + 1)),
+            Value::Map(m) => m.iter().for_each(|(k, x)| {
+                walk(k, level, depth + 1);
+                walk(x, level, depth + 1);
+            }),
+            Value::Tag(_, x) => walk(x, level, depth + 1),
+            _ => {}
+        }
+    }
+    if let Ok(v) = <Value as coset::CborSerializable>::from_slice(bytes) {
+        walk(&v, level, 0);
+    }
 }
 
 fn pick_indices(n: usize) -> Vec<usize> {
@@ -295,7 +412,7 @@ impl Engine for C01 {
     fn info(&self) -> EngineInfo {
         EngineInfo {
             level: "exploration",
-            rule: "Each run is one delivery: valid traffic of one of 24 type families (reference-encoded, sometimes tagged) hit by 0-3 seeded byte-level faults (cut, append, dup, coalesce, flip, set, del, ins, splice, head-inflate, tag-rewrite) and with probability 1/4 a Byzantine-peer fault (subtree substitution from a palette of every CBOR kind, re-encoding with non-minimal heads / indefinite lengths / bignum tags / odd floats / extra tags); 1 run in 6 is instead a nesting case along one of 16 axes (counter-signatures in protected and unprotected headers, recipients, every CBOR-level nesting kind, mixtures, wide siblings) with depth log-uniform up to the size cap; 1 in 24 is random bytes. The delivered bytes go to ALL 31 endpoints on a 2 MiB-stack node thread; every accepted value is cloned, compared, re-encoded (tagged too), dropped and handed to every helper whose documented precondition holds with seeded AAD / detached payload / verifier result. evaluations = operations executed (decodes + follow-ups). Non-trivial = delivered bytes that are non-empty and differ from every other delivery; distinct = distinct delivered byte strings (64-bit hash).",
+            rule: "Each run is one delivery: valid traffic of one of 24 type families (reference-encoded, sometimes tagged) hit by 0-3 seeded byte-level faults (cut, append, dup, coalesce, flip, set, del, ins, splice, head-inflate, tag-rewrite) and with probability 1/4 a Byzantine-peer fault (subtree substitution from a palette of every CBOR kind, re-encoding with non-minimal heads / indefinite lengths / bignum tags / odd floats / extra tags); 1 run in 6 is instead a nesting case along one of 16 axes (counter-signatures in protected and unprotected headers, recipients, every CBOR-level nesting kind, mixtures, wide siblings) with depth log-uniform up to the size cap; 1 in 24 is random bytes; one run index in 4096 is a scaling probe (one wide or nested shape at 32 and 128 KiB - 128 and 512 KiB in the thorough tier - whose decode time at every endpoint must grow about linearly). The delivered bytes go to ALL 31 endpoints on a 2 MiB-stack node thread; every accepted value is cloned, compared, re-encoded (tagged too), dropped and handed to every helper whose documented precondition holds with seeded AAD / detached payload / verifier result. evaluations = operations executed (decodes + follow-ups). Non-trivial = delivered bytes that are non-empty and differ from every other delivery; distinct = distinct delivered byte strings (64-bit hash).",
             distinct_classes: &["(endpoint, outcome class, first fault kind) triples", "fault-kind multisets"],
             assumptions: &[
                 "'ordinary thread stack' = Rust's default 2 MiB for spawned threads, release-profile code generation (overflow checks and debug assertions on)",
@@ -306,7 +423,7 @@ impl Engine for C01 {
             ],
             real_components: &["all 31 coset decoding entry points, Clone/PartialEq/Drop, encoders, tbs/verify/MAC/decrypt helpers, ciborium underneath (real code)", "node environment: real 2 MiB thread stack, real allocator behind a counting wrapper, real process death"],
             stub_components: &["originators and wire (harness)", "verifier / cipher closures"],
-            fault_kinds: &["cut", "append", "dup", "coalesce", "flip", "set", "del", "ins", "splice", "head-inflate", "tag-rewrite", "subst", "reencode", "nest(16 axes)", "random-bytes", "misdeliver(all 31 endpoints)", "stack(2 MiB)", "alloc-budget", "feature(std on/off)", "verifier-result"],
+            fault_kinds: &["cut", "append", "dup", "coalesce", "flip", "set", "del", "ins", "splice", "head-inflate", "tag-rewrite", "subst", "reencode", "nest(16 axes)", "random-bytes", "misdeliver(all 31 endpoints)", "stack(2 MiB)", "alloc-budget", "feature(std on/off)", "verifier-result", "scaling-probe (same shape at S and 4S)"],
             design_ref: "DESIGN.md section 5.1, 7, Appendix D",
         }
     }
@@ -337,6 +454,32 @@ impl Engine for C01 {
     fn gen(&self, seed: u64, run: u64, tier: Tier) -> Trace {
         let mut rng = Rng::for_run(seed, run, "C01");
         let mut t = Trace::new("C01", seed, run);
+        if run % SCALING_EVERY == SCALING_EVERY / 2 {
+            // scaling probe: the same shape at size S and 4S; cost must grow about linearly
+            let (s_small, s_large) = match tier {
+                Tier::Quick => (32 << 10, 128 << 10),
+                Tier::Thorough => (128 << 10, 512 << 10),
+            };
+            let wide = (run / SCALING_EVERY) % 2 == 0;
+            let mut r1 = rng.clone();
+            let mut r2 = rng.clone();
+            let (small, large, what) = if wide {
+                let (a, ty) = gen_wide(&mut r1, s_small, true);
+                let (b, _) = gen_wide(&mut r2, s_large, true);
+                (a, b, format!("wide:{}", ty))
+            } else {
+                let a = gen_nest_opt(&mut r1, s_small, true);
+                let b = gen_nest_opt(&mut r2, s_large, true);
+                let w = a.faults.join("+");
+                (a.bytes, b.bytes, w)
+            };
+            t.set_meta("base", what);
+            t.set_meta("faults", "scaling-probe");
+            t.push(Step::new("deliver", "small", vec![Arg::B(small)]));
+            t.push(Step::new("deliver", "bytes", vec![Arg::B(large)]));
+            t.push(Step::new("plan", "followup", vec![Arg::B(vec![]), Arg::B(vec![]), Arg::I(1)]));
+            return t;
+        }
         let cap = size_cap(tier);
         // large inputs are rare: they cost ~0.1 s per endpoint
         let cap = if rng.chance(1, 512) { cap } else { cap.min(8 << 10) };
@@ -349,7 +492,8 @@ impl Engine for C01 {
                 Case { bytes, faults: vec!["nest(wide-siblings)".into(), "full-size".into()], base_type: ty.to_string(), depth: None }
             }
             1 => {
-                let mut c = gen_nest(&mut rng, full);
+                let deep = rng.bool();
+                let mut c = gen_nest_opt(&mut rng, full, deep);
                 c.faults.push("full-size".into());
                 c
             }
@@ -447,12 +591,22 @@ impl Engine for C01 {
             }
             st.distinct(2, h.finish());
         }
-        // reference cost of these bytes: coset's plain Value decoder, best of two
+        if faults == "scaling-probe" {
+            if let Some(small) = t.steps.iter().find(|s| s.kind == "deliver" && s.name == "small") {
+                let small = small.bytes(0)?.to_vec();
+                if let Some(v) = scaling_check(st, &small, &bytes, only.as_deref()) {
+                    return Ok(Some(v));
+                }
+            }
+        }
+        // reference cost of these bytes: coset's plain Value decoder applied to the bytes and,
+        // recursively, to every byte string inside that is itself CBOR (a typed decoder parses
+        // protected headers where `Value` merely copies them); best of two
         let reference = {
             let mut best = std::time::Duration::from_secs(3600);
             for _ in 0..2 {
-                let t = std::time::Instant::now();
-                let _ = guarded(|| <coset::cbor::value::Value as coset::CborSerializable>::from_slice(&bytes));
+                let t = CpuInstant::now();
+                let _ = guarded(|| deep_parse(&bytes, 0));
                 best = best.min(t.elapsed());
             }
             best
@@ -464,7 +618,7 @@ impl Engine for C01 {
                     continue;
                 }
             }
-            let t0 = std::time::Instant::now();
+            let t0 = CpuInstant::now();
             let r = match op(st, "decode", ep.name, bytes.len(), || (ep.decode)(&bytes)) {
                 Ok(r) => r,
                 Err(v) => return Ok(Some(v)),
@@ -494,7 +648,7 @@ impl Engine for C01 {
                             st.max(&format!("max:accepted-depth:{}", first_fault), depth);
                         }
                     }
-                    let t1 = std::time::Instant::now();
+                    let t1 = CpuInstant::now();
                     if let Err(v) = followups(st, ep, &d, bytes.len(), &aad, &payload, ok) {
                         return Ok(Some(v));
                     }
